@@ -394,12 +394,47 @@ func (k *c7canon) patterns(v *adt.Vertex, sb *strings.Builder) {
 	}
 	var parts []string
 	for _, p := range v.PatternConstraints.Pairs {
+		if k.patternIsEllipsis(p) {
+			// `[string]: _` / `[_]: _` say what `...` says (format.Simplify prints them as `...`)
+			continue
+		}
 		k.nPattern++
 		parts = append(parts, "["+k.value(p.Pattern)+"]")
+	}
+	if len(parts) == 0 {
+		return
 	}
 	sort.Strings(parts)
 	parts = c7uniq(parts)
 	sb.WriteString("P{" + strings.Join(parts, ";") + "}")
+}
+
+// patternIsEllipsis: the pattern matches every string label and the constraint is top.
+func (k *c7canon) patternIsEllipsis(p adt.PatternConstraint) (ok bool) {
+	defer func() {
+		if recover() != nil {
+			ok = false
+		}
+	}()
+	switch x := p.Pattern.(type) {
+	case *adt.Top:
+	case *adt.BasicType:
+		if x.K != adt.StringKind && x.K != adt.TopKind {
+			return false
+		}
+	default:
+		return false
+	}
+	c := p.Constraint
+	if c == nil {
+		return false
+	}
+	for cj := range c.LeafConjuncts() {
+		if _, isTop := cj.Elem().(*adt.Top); !isTop {
+			return false
+		}
+	}
+	return true
 }
 
 func (k *c7canon) arcs(v *adt.Vertex, sb *strings.Builder) {
